@@ -1,4 +1,10 @@
-(* C08 — A search returns exactly the matching blobs, however it is planned. *)
+(* C08 — A search returns exactly the matching blobs, however it is planned.
+   The constraint trees quantified over are the whole language of the property: what the planner inspects is structural
+   (logical operators, camliType / anyCamliType, a complete blobRefPrefix, blobSize, permanode attr + value / valueMatches,
+   relation with its sub-constraint, file wholeRef); every other conjunct of a constraint struct (proper blobRefPrefix,
+   further file fields, directory constraints, permanode numValue / valueAll / valueMatchesInt / valueInSet / modTime /
+   time / at / skipHidden) is an arbitrary set of refs (field `prefix` of Model/C08.v), so the theorems hold whatever those
+   leaves mean; their meaning on a concrete world is supplied by the harness's reference evaluator. *)
 From Coq Require Import List NArith ZArith Bool Sorted Permutation.
 From PK.Model Require Import C08.
 From PK.Proofs Require C08.
